@@ -96,7 +96,10 @@ def si_histories(run, tier, rng):
     nprng = np.random.RandomState(rng.randint(0, 2 ** 31 - 1))
     cfgs = gen_mc.si_configs(tier)
     if tier == "quick":
-        cfgs = cfgs[::3]
+        # every third configuration, plus those with warm-up samples (skip > 0) and a shift of 3+,
+        # where a short utterance can be absorbed entirely as context
+        cfgs = [c for i, c in enumerate(cfgs)
+                if i % 3 == 0 or (c["S"] >= 3 and c["T"] - (c["S"] if c["style"] == "centered" else 0) > 0)]
     traces, meta, tid = [], {}, 0
     for c in cfgs:
         taps = [list(nprng.randint(-3, 4, size=c["length"]).astype(float) + 0.5)]
